@@ -6,15 +6,15 @@ from . import oracles as O
 from . import small as SM
 
 CONFIG = {
-    'C01': dict(streams=[('td_class', 480), ('td_wf', 960), ('td_coarse', 320), ('fail_wf', 240)], keep='om'),
+    'C01': dict(streams=[('td_class', 480), ('td_wf', 880), ('td_coarse', 320), ('fail_wf', 200), ('panic', 240)], keep='om'),
     'C02': dict(streams=[('td_exact', 880), ('td_wf', 480)], keep='ov'),
-    'C03': dict(streams=[('bu_wf', 960), ('mixed_wf', 320), ('newreq', 160)], keep='ovm'),
+    'C03': dict(streams=[('bu_wf', 880), ('mixed_wf', 320), ('newreq', 160), ('fail_bu', 200)], keep='ovm'),
     'C04': dict(streams=[('bu_wf', 1120), ('mixed_wf', 160), ('newreq', 160), ('abort_bu', 240)], keep='ov'),
     'C05': dict(streams=[('inj_hidden', 1200), ('siblings', 240), ('td_wf', 160)], keep='om'),
     'C06': dict(streams=[('inj_overlap', 1200), ('td_wf', 160)], keep='om'),
     'C07': dict(streams=[('inj_cycle', 1040), ('reorder_cycle', 240)], keep='ov'),
     'C08': dict(streams=[('td_wf', 560), ('bu_wf', 320), ('multi', 80), ('panic', 240), ('abort_bu', 120)], keep='od'),
-    'C09': dict(streams=[('td_coarse', 880), ('bu_wf', 320), ('multi', 80)], keep='dv'),
+    'C09': dict(streams=[('td_coarse', 880), ('bu_wf', 320), ('multi', 80)], keep='dv', extra='stampsrc'),
     'C16': dict(streams=[('td_wf', 240), ('bu_wf', 240), ('mixed_wf', 120), ('newreq', 160)], keep='oevdm', two_process=True),
     'C17': dict(streams=[('td_wf', 480), ('bu_wf', 480), ('fail_wf', 240), ('panic', 160), ('failstamp', 160)], keep='v', extra='tracker'),
     'C18': dict(streams=[('fail_wf', 800), ('fail_bu', 500), ('fail_mixed', 300)], keep='eov'),
@@ -91,7 +91,7 @@ def step_index_map(steps):
     return list(range(len(steps)))
 
 
-def run_cases(exe_impl, exe_model, cases, work, fresh=True, tag=''):
+def run_cases(exe_impl, exe_model, cases, work, fresh=True, tag='', noise=False):
     """cases: list of token lists.  Returns (impl_lines_per_case, model_lines_per_case or None, problems)"""
     shard = 16
     chunks = [cases[i::shard] for i in range(shard)]
@@ -102,7 +102,7 @@ def run_cases(exe_impl, exe_model, cases, work, fresh=True, tag=''):
             return k, [], []
         f = os.path.join(work, 'cases%s%d.txt' % (tag, k))
         open(f, 'w').write('\n'.join(' '.join(c) for c in cs) + '\n')
-        rc1, o1, _ = C.sh([exe_impl, f] + (['--fresh'] if fresh else []), timeout=3000)
+        rc1, o1, _ = C.sh([exe_impl, f] + (['--fresh'] if fresh else []) + (['--noise'] if noise else []), timeout=3000)
         o2 = None
         if exe_model:
             rc2, o2, _ = C.sh([exe_model, 'pie', f], timeout=3000)
@@ -194,7 +194,7 @@ def run(prop, tier, seed, replay=None):
     impl, model, crashes = run_cases(exe_impl, exe_model, toks_list, work)
     impl2 = None
     if cfg.get('two_process'):
-        impl2, _, _ = run_cases(exe_impl, None, toks_list, work, tag='b')
+        impl2, _, _ = run_cases(exe_impl, None, toks_list, work, tag='b', noise=True)   # second process: after an unrelated instance in the same thread
 
     findings = []      # (sig, msg, case index)
     divergences = []
@@ -235,13 +235,30 @@ def run(prop, tier, seed, replay=None):
         if impl2 is not None and impl2[i] != impl[i]:
             a, b = impl[i], impl2[i] or []
             first = next((j for j, (x, y) in enumerate(zip(a, b)) if x != y), min(len(a), len(b)))
-            findings.append(('nondeterministic', 'two replays of the same history in two processes differ at observation line %d: %r vs %r' % (first, a[first] if first < len(a) else None, b[first] if first < len(b) else None), i))
+            findings.append(('nondeterministic', 'two replays of the same history in two processes (the second one after an unrelated instance had been built, and a bottom-up build of it abandoned, in the same thread) differ at observation line %d: %r vs %r' % (first, a[first] if first < len(a) else None, b[first] if first < len(b) else None), i))
         if model is not None:
             a = comparable(impl[i], cfg['keep'])
             b = comparable(model[i] or [], cfg['keep'])
             if a != b:
                 first = next((j for j, (x, y) in enumerate(zip(a, b)) if x != y), min(len(a), len(b)))
                 divergences.append((i, first, a[first] if first < len(a) else None, b[first] if first < len(b) else None))
+    if cfg.get('extra') == 'stampsrc' and (not replay or cases[0][4] == 'stampsrc_probe'):
+        # where stamps come from: a resource that numbers its opens (harness misc_probe stampsrc), both contexts, nested or not
+        exe_probe, pout = C.build_harness('misc_probe')
+        rc1, o1, _ = C.sh([exe_probe, 'stampsrc'], timeout=600) if exe_probe else (1, '', 0)
+        lines = [l for l in o1.split('\n') if l.startswith('stampsrc ')]
+        base = len(cases) if not replay else 0
+        if not replay: cases.append((None, None, {}, ['stampsrc'], 'stampsrc_probe'))
+        if rc1 != 0 or len(lines) != 12:
+            findings.append(('crash', 'the stamp-source probe crashed or printed %d of 12 lines' % len(lines), base))
+        for l in lines:
+            kv = dict(x.split('=') for x in l.split()[1:])
+            seen0 = kv['seen'].split(',')[0]
+            exp = {'0': 'r' + seen0, '1': 'w' + seen0, '2': 'w0'}[kv['mode']]
+            if kv['stamps'] != exp or kv['opens'] != '1':
+                what = {'0': 'read', '1': 'write', '2': 'create_writer + written_to'}[kv['mode']]
+                findings.append(('stamp-source', 'stamp-source probe (%s context, %s%s): the task used open #%s of the resource, the recorded stamp is %s (expected %s) and the resource was opened %s time(s) (expected 1): the stamp was not taken from the very reader/writer handed to the task' % (kv['ctx'], what, ', nested' if kv['nested'] == '1' else '', seen0, kv['stamps'], exp, kv['opens']), base))
+                break
     if cfg.get('extra') == 'tracker' and (not replay or cases[0][4] == 'tracker_probe'):
         tcases = [c[3] for c in cases] if replay else [SM.ALL_KINDS_CASE] + [SM.gen_tracker_case(rng) for _ in range(600 if tier == 'quick' else 20000)]
         exe_probe, pout = C.build_harness('misc_probe')
@@ -336,7 +353,14 @@ def run(prop, tier, seed, replay=None):
 
 # findings of a neighbouring property that a check also reports as its own: C01's statement (a require that returns gives
 # the from-scratch result) does not stop holding when a checker fails during validation
-ALSO = {'C01': {('C18', 'stale-output'), ('C18', 'stale-resource')}}
+ALSO = {'C01': {('C18', 'stale-output'), ('C18', 'stale-resource'),
+                # ... nor after an earlier build on the same instance was aborted ("whatever was built before")
+                ('C19', 'stale-output'), ('C19', 'stale-resource')},
+        # a dependency the store records although the task's latest execution did not create it makes later builds re-execute the
+        # task for no reason a from-scratch build would have (the "only if one of ITS dependencies ..." clause)
+        'C02': {('C08', 'recorded-deps-differ')},
+        # the bottom-up build must leave every known task up to date also when a checker fails while scheduling
+        'C03': {('C18', 'stale-after-erring-bottom-up')}}
 def mine(prop, pr, sig):
     return pr == prop or (pr, sig) in ALSO.get(prop, ())
 
@@ -457,6 +481,12 @@ def corpus(prop):
         out.append(mk({0: ('R', 0, 0, ('I', ('l', 2), ('W', 10, 0, ('k', 3), ('D',)), ('D',))), 1: ('R', 1, 0, ('I', ('l', 2), ('W', 10, 0, ('k', 4), ('D',)), ('D',))), 9: pan},
                       [['E', '3', '1'], ['S', '1', 'q', '9'], ['E', '3', '0'], ['E', '0', '1'], ['E', '1', '0'], ['S', '2', 'q', '0', 'q', '1'],
                        ['E', '0', '0'], ['E', '1', '1'], ['S', '1', 'q', '1']], kind='panic', generated={10: (None, 0)}))
+    if prop in ('C01', 'C19'):
+        # an execution is aborted after it recorded a read; the source changes and the task is rebuilt; then the source returns to the
+        # value the ABORTED run saw: nothing of that run may survive (the recorded stamp must be the rebuilt run's)
+        out.append(mk({0: ('R', 0, 0, ('Q', 1, 0, ('T', ('a',)))), 1: ('R', 1, 0, ('I', ('l', 2), ('P',), ('T', ('a',))))},
+                      [['E', '0', '1'], ['E', '1', '1'], ['S', '1', 'q', '0'], ['E', '0', '2'], ['E', '1', '0'], ['S', '1', 'q', '0'],
+                       ['E', '0', '1'], ['S', '1', 'q', '0']], kind='wf'))
     if prop == 'C20':
         # the guarding read comes before the conditional require in creation order, although the task reads the same source again
         # afterwards: after the role flip the stale require must not be followed (a re-added edge must keep its place)
